@@ -186,4 +186,14 @@ example : run samplePtr [(sampleOid, [1, 2, 3])] (.file [104, 105]) = some [104,
 example : run samplePtr [(sampleOid, [1, 2, 3])] (.absent false) = some [1, 2, 3] := by
   simp [run, willWrite, smudgeToFile, Store.get, samplePtr]
 
+/-- smudging into a named file (`git lfs checkout --to`, pull, checkout) writes the object's bytes whatever
+    sits at that path — no file, the same bytes, other bytes of the same length, shorter, longer -/
+theorem tofile_independent_of_what_is_there (recorded : Ptr) (st : Store) (content : Bytes) (cur : WFile)
+    (h : st.get recorded.oid = some content) (hs : recorded.size ≠ 0) :
+    smudgeToFile recorded st cur = content := by
+  unfold smudgeToFile
+  split
+  · rename_i h0; exact absurd h0 hs
+  · simp [h]
+
 end C04
